@@ -302,7 +302,7 @@ def suite_fileseq(tier: str, seed: int, mult: int) -> SuiteResult:
     res = SuiteResult("S-FILES[file sequence]")
     work = Path(tempfile.mkdtemp(prefix="bbverif-seq-", dir=SCRATCH))
     d = Driver()
-    cnt = {"queries": 0, "with_repeats": 0, "empty_idxs": 0, "with_empty_files": 0, "unsorted": 0, "out_of_range": 0, "width_mismatch": 0}
+    cnt = {"queries": 0, "repeat_gap": 0, "with_repeats": 0, "empty_idxs": 0, "with_empty_files": 0, "unsorted": 0, "out_of_range": 0, "width_mismatch": 0}
     try:
         for k in range((120 if tier == "quick" else 3000) * mult):
             nf = rng.choice([1, 2, 3, 5])
@@ -318,8 +318,34 @@ def suite_fileseq(tier: str, seed: int, mult: int) -> SuiteResult:
             for i, a in enumerate(arrs):
                 np.save(wd / f"f{i}.npy", a)
                 paths.append(wd / f"f{i}.npy")
-            kind = rng.choice(["sorted", "sorted", "sorted", "repeats", "empty", "unsorted", "oob"])
-            if kind == "empty" or N == 0 and kind in ("sorted", "repeats", "unsorted"):
+            kind = rng.choice(["sorted", "sorted", "sorted", "repeats", "repeat-gap", "empty", "unsorted", "oob"])
+            if k < 8:
+                kind = "repeat-gap"        # forced: the first queries of every run
+            if kind == "repeat-gap":
+                # a sorted list that spans a block of one file and has as many entries as the block has rows, but is not the block:
+                # some rows are skipped and as many entries repeat ([3, 3, 5]) - a "contiguous block" shortcut keyed on
+                # last - first + 1 == len(idxs) would read the wrong rows
+                big = [i for i, n in enumerate(lens) if n >= 3]
+                if not big:
+                    lens[rng.randrange(nf)] = rng.choice([5, 9])
+                    arrs = [nprng.integers(0, 256, size=(n, w)).astype(dt) for n in lens]
+                    mism = False
+                    N = sum(lens)
+                    for i, a in enumerate(arrs):
+                        np.save(wd / f"f{i}.npy", a)
+                    big = [i for i, n in enumerate(lens) if n >= 3]
+                fi = rng.choice(big)
+                off = sum(lens[:fi])
+                L = rng.randint(3, lens[fi])
+                a0 = rng.randint(0, lens[fi] - L)
+                block = list(range(off + a0, off + a0 + L))
+                inner = block[1:-1]
+                drop = set(rng.sample(inner, rng.randint(1, len(inner))))
+                keep = [x for x in block if x not in drop]
+                idxs = sorted(keep + [rng.choice(keep) for _ in drop])
+                if rng.random() < 0.4 and N:
+                    idxs = sorted(idxs + [rng.randrange(N) for _ in range(rng.randint(1, 3))])
+            elif kind == "empty" or N == 0 and kind in ("sorted", "repeats", "unsorted"):
                 idxs = []
             elif kind == "sorted":
                 idxs = sorted(rng.sample(range(N), rng.randint(1, N)))
@@ -330,6 +356,7 @@ def suite_fileseq(tier: str, seed: int, mult: int) -> SuiteResult:
             else:
                 idxs = sorted([rng.choice(range(N)) for _ in range(rng.randint(0, 3))] if N else []) + [N + rng.randint(0, 3)]
             cnt["queries"] += 1
+            cnt["repeat_gap"] += kind == "repeat-gap"
             cnt["with_repeats"] += len(set(idxs)) < len(idxs)
             cnt["empty_idxs"] += not idxs
             cnt["with_empty_files"] += 0 in lens
